@@ -22,6 +22,10 @@ def templates(tier, seed):
                     if tier == "quick" and (N == 3 and (len(which) != 2 or shape in ("frame_wide", "model", "series_nulls"))):
                         continue
                     ts.append(Template(f"{shape}/{'+'.join(which) or 'none'}/N={N}", t_sub, (shape, N, list(which))))
+    if tier != "quick":  # five rows: head, tail and sample can each take two rows and still leave one row unselected
+        for shape in ("series", "frame"):
+            for which in (["head", "tail"], ["head", "sample"], ["head", "tail", "sample"]):
+                ts.append(Template(f"{shape}/{'+'.join(which)}/N=5", t_sub, (shape, 5, list(which))))
     t_idx = tmpl.pick(tmpl.subsample_index_case, LABELS)
     for N in ((2, 3) if tier == "quick" else (1, 2, 3, 4)):
         for shape in ("series_index", "index_alone"):
